@@ -9,6 +9,9 @@ observes of the local bound to var `v` (the content of the dict / list it would 
 Out of the model: the guarantees of `contextvars`, GIL atomicity of one call, real preemption.
 -/
 import WzVerif.Lemmas.Local
+import WzVerif.Lemmas.LocalLife
+import WzVerif.Lemmas.LocalProxy
+import WzVerif.Lemmas.LocalFine
 namespace Wz.Props.C18
 open Wz Wz.Local Wz.Gen.LocalOps
 
@@ -134,6 +137,216 @@ theorem release_local_only (w : World) (hw : WF w) (c v : Nat) (hc : c < w.nctx)
     apply (stepEvent_inv hw (.call c v _ {}) hcbw).2.2 c' v' hc'
     intro ht; exact hne ⟨ht.1.symm, ht.2.symm⟩
 
+/-! ### object lifecycle: instances, their storage cells, creation and disposal
+
+`cow_isolation` and everything above speak about *storage cells* (vars). The theorems below tie
+cells to the `Local` / `LocalStack` *instances* of a program: which cell an instance gets is decided
+in `__init__`, and that choice is read from the AST on every run (`Gen.LocalOps.constructors`). -/
+
+/-- **Each instance owns its cell.** In the current `local.py` both `Local.__init__` and
+`LocalStack.__init__`, when no `context_var` is passed, bind the storage attribute to the result of a
+direct call `ContextVar(<name>)` of the class imported from `contextvars` (the only statement of the
+module that binds the name `ContextVar` is that import), made in the constructor itself - not shared,
+cached or looked up - and no other function re-binds a storage attribute afterwards. This is the
+obligation a memoising / pooling constructor breaks. -/
+theorem constructors_allocate_own_var :
+    (∀ k ∈ Gen.LocalOps.constructors, k.2 = .direct) ∧
+    Gen.LocalOps.contextVarBinders = ["from contextvars import ContextVar"] ∧
+    Gen.LocalOps.storageRebinds = [] := by decide
+
+/-- ... hence histories "as the extracted constructors produce them" are histories in which every
+constructor call makes its own var. -/
+theorem extracted_histories_own_var (es : List LEvent) (h : ∀ e ∈ es, e.asExtracted) :
+    ∀ e ∈ es, e.ownVar := by
+  have hl : Gen.LocalOps.localCtor = .direct :=
+    constructors_allocate_own_var.1 ("Local.__init__", localCtor) (by simp [constructors])
+  have hs : Gen.LocalOps.stackCtor = .direct :=
+    constructors_allocate_own_var.1 ("LocalStack.__init__", stackCtor) (by simp [constructors])
+  intro e he
+  have := h e he
+  cases e with
+  | create pol addr st =>
+    cases st <;> simpa [LEvent.asExtracted, LEvent.ownVar, hl, hs, CtorKind.policy] using this
+  | _ => trivial
+
+/-- **A fresh local is unbound in every context.** After EVERY history of creations (at any
+addresses, re-used or not), calls from any contexts, context copies / new threads, disposals (with
+or without `release_local` before) and collections: a `Local()` / `LocalStack()` that has just been
+constructed is bound in no context at all - nothing is visible through it, and both kinds of proxy
+on it report unbound on all three faces - whatever data discarded locals left behind in the
+contexts that are still alive (or in their children). -/
+theorem fresh_local_unbound (es : List LEvent) (hc : ∀ e ∈ es, e.cbw) (ho : ∀ e ∈ es, e.ownVar)
+    (addr : Nat) (st : Bool) :
+    let lw' := lstep (lrun LWorld.init es) (.create .ownFresh addr st)
+    ∃ i, lw'.newest = some i ∧ i.addr = addr ∧ ∀ c,
+      obs lw'.w c i.var = none ∧
+      ∀ name, proxyView lw'.w c (.attr i.var name) = { obj := none, truthy := false, fallbackRepr := true } ∧
+              proxyView lw'.w c (.top i.var) = { obj := none, truthy := false, fallbackRepr := true } := by
+  obtain ⟨hinv, _, _, _⟩ := lrun_inv linv_init es hc ho
+  refine ⟨{ var := (lrun LWorld.init es).nvar, addr, isStack := st, own := true }, ?_, rfl, ?_⟩
+  · simp [lstep, LWorld.newest]
+  · intro c
+    have hn : obs (lstep (lrun LWorld.init es) (.create .ownFresh addr st)).w c (lrun LWorld.init es).nvar = none := by
+      simp only [lstep, obs]
+      cases h : (lrun LWorld.init es).w.ctxs c (lrun LWorld.init es).nvar with
+      | none => rfl
+      | some id => exact absurd (hinv.bound _ _ _ h) (Nat.lt_irrefl _)
+    exact ⟨hn, fun name => proxyView_unbound hn name⟩
+
+/-- the same for the code as it is: histories whose constructor calls follow the extracted
+`__init__` bodies -/
+theorem fresh_local_unbound_generated (es : List LEvent) (hc : ∀ e ∈ es, e.cbw)
+    (hx : ∀ e ∈ es, e.asExtracted) (addr : Nat) (st : Bool) :
+    let pol := (if st then Gen.LocalOps.stackCtor else Gen.LocalOps.localCtor).policy
+    let lw' := lstep (lrun LWorld.init es) (.create pol addr st)
+    ∃ i, lw'.newest = some i ∧ ∀ c, obs lw'.w c i.var = none := by
+  have hp : (if st then Gen.LocalOps.stackCtor else Gen.LocalOps.localCtor).policy = .ownFresh := by
+    exact extracted_histories_own_var
+      [.create (if st then Gen.LocalOps.stackCtor else Gen.LocalOps.localCtor).policy 0 st]
+      (by intro e he; simp at he; subst he; rfl) _ (List.mem_singleton.mpr rfl)
+  simp only [hp]
+  obtain ⟨i, h1, _, h3⟩ := fresh_local_unbound es hc (extracted_histories_own_var es hx) addr st
+  exact ⟨i, h1, fun c => (h3 c).1⟩
+
+/-- hypotheses are satisfiable by a history with address re-use: a local is created at address 7,
+written in context 0, a child context is taken, the local is dropped without release, collected, and
+the next local is allocated at address 7 again -/
+example : ∀ e ∈ [LEvent.create .ownFresh 7 false, .call 0 0 localSetattr ⟨1, 5⟩, .copyCtx 0, .drop 0, .gc],
+    e.cbw ∧ e.ownVar ∧ e.asExtracted := by
+  intro e he
+  simp only [List.mem_cons, List.mem_nil_iff, or_false] at he
+  rcases he with rfl | rfl | rfl | rfl | rfl
+  · exact ⟨trivial, rfl, by show VarPolicy.ownFresh = _; decide⟩
+  · exact ⟨by show CopyBeforeWrite _; decide, trivial, trivial⟩
+  · exact ⟨trivial, trivial, trivial⟩
+  · exact ⟨trivial, trivial, trivial⟩
+  · exact ⟨trivial, trivial, trivial⟩
+
+/-- ... and it stays unbound in a context until that context itself stores through an instance
+with this cell: no history of operations elsewhere (other contexts, other instances, further
+creations and disposals) binds it. -/
+theorem fresh_local_stays_unbound (es : List LEvent) (hc : ∀ e ∈ es, e.cbw) (ho : ∀ e ∈ es, e.ownVar)
+    (addr : Nat) (st : Bool) (es2 : List LEvent) (hc2 : ∀ e ∈ es2, e.cbw) (ho2 : ∀ e ∈ es2, e.ownVar)
+    (c : Nat) :
+    let lw' := lstep (lrun LWorld.init es) (.create .ownFresh addr st)
+    c < lw'.w.nctx → NoTouch c (lrun LWorld.init es).nvar lw' es2 →
+    obs (lrun lw' es2).w c (lrun LWorld.init es).nvar = none := by
+  intro lw' hcn hnt
+  obtain ⟨hinv, _, _, _⟩ := lrun_inv linv_init es hc ho
+  obtain ⟨hinv', _, _, _⟩ := lstep_inv hinv (.create .ownFresh addr st) trivial rfl
+  obtain ⟨i, _, _, h3⟩ := fresh_local_unbound es hc ho addr st
+  rw [(lrun_inv hinv' es2 hc2 ho2).2.2.2 c _ hcn hnt]
+  have : obs lw'.w c (lrun LWorld.init es).nvar = none := by
+    simp only [lw', lstep, obs]
+    cases h : (lrun LWorld.init es).w.ctxs c (lrun LWorld.init es).nvar with
+    | none => rfl
+    | some id => exact absurd (hinv.bound _ _ _ h) (Nat.lt_irrefl _)
+  exact this
+
+/-- non-vacuity of `NoTouch`: after the new local (cell 1) is created, context 0 writes through the
+OLD local and context 1 writes through the new one; context 0 never touches cell 1 -/
+example :
+    let lw' := lrun LWorld.init [.create .ownFresh 7 false, .copyCtx 0, .create .ownFresh 9 false]
+    NoTouch 0 1 lw' [.call 0 0 localSetattr ⟨1, 5⟩, .call 1 1 localSetattr ⟨1, 6⟩] ∧
+    obs (lrun lw' [.call 0 0 localSetattr ⟨1, 5⟩, .call 1 1 localSetattr ⟨1, 6⟩]).w 0 1 = none ∧
+    obs (lrun lw' [.call 0 0 localSetattr ⟨1, 5⟩, .call 1 1 localSetattr ⟨1, 6⟩]).w 1 1 = some (.dict [(1, 6)]) := by
+  refine ⟨⟨?_, ?_, trivial⟩, by decide, by decide⟩
+  · rintro ⟨_, i, hi, hv⟩
+    have : (lrun LWorld.init [.create .ownFresh 7 false, .copyCtx 0, .create .ownFresh 9 false]).inst? 0
+        = some { var := 0, addr := 7, isStack := false, own := true } := by decide
+    rw [this] at hi; cases hi; cases hv
+  · rintro ⟨h, _⟩; cases h
+
+/-- **Own cells are pairwise distinct.** In every history whose constructor calls make their own var,
+two different instances created without `context_var` never have the same storage cell - also when
+the second one lives at the address the first one had. -/
+theorem own_cells_distinct (es : List LEvent) (hc : ∀ e ∈ es, e.cbw) (ho : ∀ e ∈ es, e.ownVar)
+    (a b : Nat) (ia ib : Inst) (ha : (lrun LWorld.init es).insts[a]? = some ia)
+    (hb : (lrun LWorld.init es).insts[b]? = some ib) (hab : a ≠ b)
+    (hoa : ia.own = true) (hob : ib.own = true) : ia.var ≠ ib.var :=
+  lrun_ownDistinct linv_init ownDistinct_init es hc ho a b ia ib ha hb hab hoa hob
+
+/-- **Isolation between instances with distinct storage cells** (the hypothesis `hcell` is explicit;
+`own_cells_distinct` discharges it for instances created without `context_var`). A call through
+instance `hi`, in any context, changes what no context observes through an instance whose cell is
+different. -/
+theorem instance_isolation (es : List LEvent) (hc : ∀ e ∈ es, e.cbw) (ho : ∀ e ∈ es, e.ownVar)
+    (hi hj : Nat) (ii ij : Inst)
+    (h1 : (lrun LWorld.init es).inst? hi = some ii) (_h2 : (lrun LWorld.init es).insts[hj]? = some ij)
+    (hcell : ii.var ≠ ij.var)
+    (c : Nat) (p : Prog) (a : Args) (hp : CopyBeforeWrite p) (c' : Nat)
+    (hc' : c' < (lrun LWorld.init es).w.nctx) :
+    obs (lstep (lrun LWorld.init es) (.call c hi p a)).w c' ij.var = obs (lrun LWorld.init es).w c' ij.var := by
+  obtain ⟨hinv, _, _, _⟩ := lrun_inv linv_init es hc ho
+  apply (lstep_inv hinv (.call c hi p a) hp trivial).2.2.2 c' ij.var hc'
+  rintro ⟨_, i, hi', hv⟩
+  rw [h1] at hi'
+  cases hi'
+  exact hcell hv
+
+/-- ... so two different instances created without `context_var` never see each other's data, under
+the extracted constructors, for every history (creation order, addresses, disposals). -/
+theorem own_instances_isolated (es : List LEvent) (hc : ∀ e ∈ es, e.cbw) (ho : ∀ e ∈ es, e.ownVar)
+    (hi hj : Nat) (ii ij : Inst) (hne : hi ≠ hj)
+    (h1 : (lrun LWorld.init es).inst? hi = some ii) (h2 : (lrun LWorld.init es).insts[hj]? = some ij)
+    (hoi : ii.own = true) (hoj : ij.own = true)
+    (c : Nat) (p : Prog) (a : Args) (hp : CopyBeforeWrite p) (c' : Nat)
+    (hc' : c' < (lrun LWorld.init es).w.nctx) :
+    obs (lstep (lrun LWorld.init es) (.call c hi p a)).w c' ij.var = obs (lrun LWorld.init es).w c' ij.var := by
+  have h1' : (lrun LWorld.init es).insts[hi]? = some ii := by
+    unfold LWorld.inst? at h1
+    split at h1
+    · cases h1
+    · exact h1
+  exact instance_isolation es hc ho hi hj ii ij h1 h2
+    (own_cells_distinct es hc ho hi hj ii ij h1' h2 hne hoi hoj) c p a hp c' hc'
+
+/-- non-vacuity: two locals created one after the other, the second at the address of the (dropped)
+first, have the cells 0 and 1 -/
+example :
+    let lw := lrun LWorld.init [.create .ownFresh 7 false, .call 0 0 localSetattr ⟨1, 5⟩, .create .ownFresh 8 true,
+      .drop 0, .create .ownFresh 7 false]
+    lw.inst? 1 = some { var := 1, addr := 8, isStack := true, own := true } ∧
+    lw.insts[2]? = some { var := 2, addr := 7, isStack := false, own := true } ∧ lw.inst? 0 = none := by
+  decide
+
+/-- The distinct-cell hypothesis is necessary, and it is exactly what a caller gives up by passing
+the same `context_var` to two locals: the second instance then sees what is stored through the
+first. -/
+theorem shared_cell_shares :
+    let lw := lrun LWorld.init [.create .ownFresh 1 false, .createSharing 0 2]
+    (lw.insts.map (·.var)) = [0, 0] ∧
+    obs (lstep lw (.call 0 0 localSetattr ⟨1, 5⟩)).w 0 0 ≠ obs lw.w 0 0 := by decide
+
+/-- **Why the constructor fact is demanded** (the seeded change C18-c2 as a model): with a factory
+that remembers vars by name - the name is built from `id(self)` - a brand-new local allocated at the
+address of a discarded one is already bound to the discarded one's data, in the context that wrote
+it and in a child copied from that context. -/
+theorem memoised_ctor_leaks :
+    let es : List LEvent := [.create .memoByName 7 false, .call 0 0 localSetattr ⟨1, 5⟩, .copyCtx 0,
+      .drop 0, .gc, .create .memoByName 7 false]
+    let lw := lrun LWorld.init es
+    lw.newest.map (·.var) = some 0 ∧
+    obs lw.w 0 0 = some (.dict [(1, 5)]) ∧ obs lw.w 1 0 = some (.dict [(1, 5)]) ∧
+    resolve lw.w 1 (.attr 0 1) = some 5 := by decide
+
+/-- the same history under the extracted constructors: the new local gets cell 1 and is unbound -/
+example :
+    let es : List LEvent := [.create .ownFresh 7 false, .call 0 0 localSetattr ⟨1, 5⟩, .copyCtx 0,
+      .drop 0, .gc, .create .ownFresh 7 false]
+    let lw := lrun LWorld.init es
+    lw.newest.map (·.var) = some 1 ∧ obs lw.w 0 1 = none ∧ obs lw.w 1 1 = none := by decide
+
+/-- **Disposal is invisible.** Dropping the last reference to a local (released before or not) and
+`gc.collect()` change what no context observes through any cell; a dropped instance can no longer
+be called. -/
+theorem drop_gc_invisible (lw : LWorld) (h : Nat) :
+    (lstep lw (.drop h)).w = lw.w ∧ (lstep lw .gc).w = lw.w ∧
+    ∀ c p a, lstep (lstep lw (.drop h)) (.call c h p a) = lstep lw (.drop h) := by
+  refine ⟨rfl, rfl, ?_⟩
+  intro c p a
+  simp [lstep, LWorld.inst?]
+
 /-- **Proxies resolve in the accessing context.** What `proxy._get_current_object()` yields in
 context `c` is a function of what `c` itself observes: no interleaving of operations by other
 contexts (or on other locals) changes it. -/
@@ -181,6 +394,290 @@ theorem proxy_bound_even_if_falsy :
   refine ⟨hr, ?_⟩
   intro x hx
   simp [proxyViewSrc, hr, hx]
+
+/-! ### preemption between the primitive effects of a call
+
+The theorems above treat one method call as atomic. `Model/LocalFine.lean` drops that: a call is a
+frame that executes ONE primitive effect (`load`, `copy`, `setItem`, `store`, a branch test, ...) per
+step and the scheduler interleaves the steps of different contexts arbitrarily. -/
+
+/-- every control-flow path of every translated method body obeys the discipline (what
+`generated_programs_cow` says, path by path) -/
+theorem generated_paths_cow :
+    ∀ p ∈ Gen.LocalOps.programs, ∀ path ∈ p.2, cbwPath [] path = true := by decide
+
+/-- **Isolation under preemption.** For EVERY schedule of primitive steps of calls running
+concurrently in any number of contexts (each context inside at most one call - a
+`contextvars.Context` cannot be entered twice -, contexts copied by their idle owner, new threads at
+any time), if every path that is started obeys the copy-on-write discipline: what context `c'`
+observes of cell `v'` changes only by steps of `c'` itself inside a call on `v'`. In particular a
+thread preempted between `values = storage.get({}).copy()` and `storage.set(values)` neither sees nor
+disturbs what the other contexts do meanwhile. -/
+theorem preemptive_isolation (es0 es : List FEvent) (h0 : ∀ e ∈ es0, e.cbw) (hc : ∀ e ∈ es, e.cbw)
+    (c' v' : Nat) (hc' : c' < (frun FWorld.init es0).w.nctx)
+    (hnt : NoTouchF c' v' (frun FWorld.init es0) es) :
+    obs (frun (frun FWorld.init es0) es).w c' v' = obs (frun FWorld.init es0).w c' v' :=
+  (frun_inv (frun_inv finv_init es0 h0).1 es hc).2.2 c' v' hc' hnt
+
+/-- non-vacuity: parent and child both run `__setattr__`, their effects alternate one by one; the
+parent ends with its own key only, the child with both, and the shared dict object is untouched -/
+example :
+    let setattr : Path := [.load 0 false, .copy 1 0, .setItem 1, .store 1, .retNone]
+    let es0 : List FEvent := [.begin 0 0 setattr ⟨1, 5⟩, .step 0, .step 0, .step 0, .step 0, .step 0, .copyCtx 0]
+    let es : List FEvent := [.begin 0 0 setattr ⟨2, 6⟩, .begin 1 0 setattr ⟨3, 7⟩,
+      .step 0, .step 1, .step 0, .step 1, .step 0, .step 1, .step 0, .step 1, .step 0, .step 1]
+    (∀ e ∈ es0 ++ es, e.cbw) ∧
+    obs (frun (frun FWorld.init es0) es).w 0 0 = some (.dict [(1, 5), (2, 6)]) ∧
+    obs (frun (frun FWorld.init es0) es).w 1 0 = some (.dict [(1, 5), (3, 7)]) := by
+  refine ⟨?_, by decide, by decide⟩
+  intro e he
+  simp only [List.cons_append, List.nil_append, List.mem_cons, List.mem_nil_iff, or_false] at he
+  rcases he with rfl | rfl | rfl | rfl | rfl | rfl | rfl | rfl | rfl | rfl | rfl | rfl | rfl | rfl | rfl | rfl | rfl | rfl | rfl <;>
+    first | trivial | (show cbwPath [] _ = true; decide)
+
+/-- **Snapshot under preemption.** A child copied from an idle parent observes exactly what the parent
+observed at that moment and keeps observing it under every schedule of primitive steps of all other
+contexts, until it steps itself. -/
+theorem preemptive_child_snapshot (es0 es : List FEvent) (h0 : ∀ e ∈ es0, e.cbw) (hc : ∀ e ∈ es, e.cbw)
+    (parent : Nat) (hp : parent < (frun FWorld.init es0).w.nctx)
+    (hidle : (frun FWorld.init es0).run parent = none) (v : Nat)
+    (hnt : NoTouchF (frun FWorld.init es0).w.nctx v (fstep (frun FWorld.init es0) (.copyCtx parent)) es) :
+    obs (frun (fstep (frun FWorld.init es0) (.copyCtx parent)) es).w (frun FWorld.init es0).w.nctx v
+      = obs (frun FWorld.init es0).w parent v := by
+  have hinv := (frun_inv finv_init es0 h0).1
+  obtain ⟨h1, _, _⟩ := fstep_inv hinv (.copyCtx parent) trivial
+  have hw : (fstep (frun FWorld.init es0) (.copyCtx parent)).w
+      = stepEvent (frun FWorld.init es0).w (.copyCtx parent) := by simp [fstep, hidle]
+  rw [(frun_inv h1 es hc).2.2 _ v (by rw [hw]; simp [stepEvent]) hnt, hw]
+  simp [obs, stepEvent, hp]
+
+/-- **The atomic semantics is one of the schedules**: letting an idle context run a path to its end
+without interruption produces exactly the world `runPath` (hence `runProg`, the driver, and every
+theorem above) computes - so `preemptive_isolation` covers the atomic behaviours and all the
+interleavings between them. -/
+theorem atomic_call_is_a_schedule (fw : FWorld) (c v : Nat) (path : Path) (a : Args)
+    (hc : c < fw.w.nctx) (hidle : fw.run c = none) (w' : World) (r : Res)
+    (hrun : runPath c v a { w := fw.w, rg := fun _ => none } path = some (w', r)) :
+    frun fw (.begin c v path a :: stepsOf c (path.length + 1)) = { w := w', run := fw.run } := by
+  simp only [frun, List.foldl_cons]
+  have hb : fstep fw (.begin c v path a) =
+      { fw with run := setRun fw.run c (some { v, a, rest := path, rg := fun _ => none, acc := none, owned := [] }) } := by
+    simp [fstep, hc, hidle]
+  rw [hb]
+  have := steps_eq_runPath c path
+    { fw with run := setRun fw.run c (some { v, a, rest := path, rg := fun _ => none, acc := none, owned := [] }) }
+    { v, a, rest := path, rg := fun _ => none, acc := none, owned := [] }
+    (by show setRun fw.run c _ c = _; unfold setRun; simp) rfl w' r hrun
+  simp only [frun] at this
+  rw [this, setRun_setRun]
+  congr 1
+  funext c'
+  simp only [setRun]
+  split
+  · rename_i h; rw [h, hidle]
+  · rfl
+
+/-- the hypothesis is satisfiable: the single path of `__setattr__` runs to its end from the initial
+world -/
+example : (runPath 0 0 ⟨1, 5⟩ { w := World.init, rg := fun _ => none }
+    [.load 0 false, .copy 1 0, .setItem 1, .store 1, .retNone]).isSome = true := by decide
+
+/-! ### `LocalManager`, every proxy source, every forwarded operation -/
+
+/-- `release_local` is `local.__release_local__()`, `LocalManager.cleanup` is that call for every
+managed local in turn, the three constructor forms (nothing / one `Local` / an iterable) only build
+the list, and the middleware calls `cleanup` when the response iterable is closed - the source text
+`cleanupRun` models. Any edit of these four functions breaks this obligation. -/
+theorem manager_code_pinned :
+    Gen.LocalProxyTbl.manager = [
+      ("release_local", "local.__release_local__()"),
+      ("LocalManager.__init__", "if locals is None:; self.locals = []; elif isinstance(locals, Local):; self.locals = [locals]; else:; self.locals = list(locals)"),
+      ("LocalManager.cleanup", "for local in self.locals:; release_local(local)"),
+      ("LocalManager.make_middleware", "; def application(environ, start_response):; return ClosingIterator(app(environ, start_response), self.cleanup); return application")] := rfl
+
+/-- **What a `LocalManager` manages.** The live constructor, evaluated on every argument form on every
+run: nothing / `None` / an empty list manage nothing; a single `Local` is managed itself - whether
+or not it holds a value in the constructing context (a `Local` is iterable: a constructor that
+iterates its argument would manage the *(name, value) pairs* of that context instead, or nothing);
+a list, tuple or iterator manages exactly its elements, in order; later `.locals.append` adds to
+them. (A lone `LocalStack` is rejected with TypeError by the current code; the property does not
+speak about that form.) `cleanupRun lw c hs` models `cleanup()` of a manager whose `.locals` are the
+instances `hs`. -/
+theorem manager_constructor_forms :
+    Gen.LocalProxyTbl.managerForms = [
+      ("LocalManager()", "-"),
+      ("LocalManager(None)", "-"),
+      ("LocalManager(<Local, empty here>)", "L0"),
+      ("LocalManager(<Local, bound here>)", "L1"),
+      ("LocalManager(<LocalStack>)", "error:TypeError"),
+      ("LocalManager([L0, S])", "L0,S"),
+      ("LocalManager((L1, S, L0))", "L1,S,L0"),
+      ("LocalManager(iter([S, L1]))", "S,L1"),
+      ("LocalManager([])", "-"),
+      ("LocalManager([L1]) then .locals.append(S)", "L1,S")] := rfl
+
+/-- **`LocalManager.cleanup` is local.** For every list of managed locals (any number, repeated,
+sharing a cell or not), `cleanup()` in context `c` leaves `c` with an empty mapping / stack in every
+managed local and changes what no other context observes through any local, and what `c` observes
+through any unmanaged local. -/
+theorem manager_cleanup_local_only (es : List LEvent) (hc : ∀ e ∈ es, e.cbw) (ho : ∀ e ∈ es, e.ownVar)
+    (c : Nat) (hcn : c < (lrun LWorld.init es).w.nctx) (hs : List Nat) :
+    let lw := lrun LWorld.init es
+    (∀ h ∈ hs, ∀ i, lw.inst? h = some i → ∃ st, obs (cleanupRun lw c hs).w c i.var = some (Obj.empty st)) ∧
+    (∀ c' v', c' < lw.w.nctx → ¬(c' = c ∧ ∃ h ∈ hs, ∃ i, lw.inst? h = some i ∧ i.var = v') →
+      obs (cleanupRun lw c hs).w c' v' = obs lw.w c' v') :=
+  cleanup_inv (lrun_inv linv_init es hc ho).1 c hcn hs
+
+/-- non-vacuity: a manager over a `Local` and a `LocalStack`, cleaned up in a child context; the
+parent keeps its data -/
+example :
+    let lw := lrun LWorld.init [.create .ownFresh 0 false, .create .ownFresh 1 true,
+      .call 0 0 localSetattr ⟨1, 5⟩, .call 0 1 stackPush ⟨0, 6⟩, .copyCtx 0]
+    obs (cleanupRun lw 1 [0, 1]).w 1 0 = some (.dict []) ∧ obs (cleanupRun lw 1 [0, 1]).w 1 1 = some (.list []) ∧
+    obs (cleanupRun lw 1 [0, 1]).w 0 0 = some (.dict [(1, 5)]) ∧ obs (cleanupRun lw 1 [0, 1]).w 0 1 = some (.list [6]) := by
+  decide
+
+/-- The code every proxy access goes through is the code `resolveP` / `lookupGet` model: the four
+`_get_current_object` closures of `LocalProxy.__init__` (a `Local`: `get_name(local)` with
+AttributeError → RuntimeError; a `LocalStack`: `top`, `None` → RuntimeError, then `get_name`; a
+`ContextVar`: `get()`, LookupError → RuntimeError, then `get_name`; a callable: `get_name(local())`),
+the choice of `get_name`, `_ProxyLookup.__get__` (unbound: the fallback if one is declared, else the
+RuntimeError; bound: the call re-done on the object) and the in-place wrapper of `_ProxyIOp` (apply
+to the object, return the proxy). Any edit of these breaks this obligation. -/
+theorem proxy_code_pinned :
+    Gen.LocalProxyTbl.closures = [
+      ("isinstance(local, Local)", "try:; return get_name(local); except AttributeError:; raise RuntimeError(unbound_message) from None"),
+      ("isinstance(local, LocalStack)", "obj = local.top; if obj is None:; raise RuntimeError(unbound_message); return get_name(obj)"),
+      ("isinstance(local, ContextVar)", "try:; obj = local.get(); except LookupError:; raise RuntimeError(unbound_message) from None; return get_name(obj)"),
+      ("callable(local)", "return get_name(local())"),
+      ("else", "raise TypeError(f\"Don't know how to proxy '{type(local)}'.\")")] ∧
+    Gen.LocalProxyTbl.initRest = [
+      "if name is None:; get_name = _identity; else:; get_name = attrgetter(name)",
+      "if unbound_message is None:; unbound_message = 'object is not bound'",
+      "object.__setattr__(self, '_LocalProxy__wrapped', local)",
+      "object.__setattr__(self, '_get_current_object', _get_current_object)"] ∧
+    Gen.LocalProxyTbl.lookupGetSrc = "if instance is None:; if self.class_value is not None:; return self.class_value; return self; try:; obj = instance._get_current_object(); except RuntimeError:; if self.fallback is None:; raise; fallback = self.fallback.__get__(instance, owner); if self.is_attr:; return fallback(); return fallback; if self.bind_f is not None:; return self.bind_f(instance, obj); return getattr(obj, self.name)" ∧
+    Gen.LocalProxyTbl.iopInitSrc = "super().__init__(f, fallback); ; def bind_f(instance, obj):; ; def i_op(self, other):; f(self, other); return instance; return i_op.__get__(obj, type(obj)); self.bind_f = bind_f" :=
+  ⟨rfl, rfl, rfl, rfl⟩
+
+/-- **The forwarding table** of the live `LocalProxy` class (every `_ProxyLookup` attribute, read on
+every run): exactly six names declare a fallback for the unbound case - `bool(proxy)` is `False`,
+`repr(proxy)` is `<LocalProxy unbound>`, `dir` is empty, `__class__` is `LocalProxy`, `__wrapped__`
+the wrapped local, `__doc__` the class docstring - and exactly the thirteen in-place operators are
+`_ProxyIOp`s. -/
+theorem proxy_table_facts :
+    Gen.LocalProxyTbl.table.length = 93 ∧
+    ((Gen.LocalProxyTbl.table.filter (·.hasFallback)).map fun e => (e.name, e.isAttr, e.fallback)) =
+      [("__doc__", true, "<the class docstring>"), ("__wrapped__", true, "<the wrapped local>"),
+       ("__repr__", false, "'<LocalProxy unbound>'"), ("__bool__", false, "False"),
+       ("__dir__", false, "[]"), ("__class__", true, "LocalProxy")] ∧
+    ((Gen.LocalProxyTbl.table.filter (·.iop)).map (·.name)) =
+      ["__iadd__", "__isub__", "__imul__", "__imatmul__", "__itruediv__", "__ifloordiv__", "__imod__",
+       "__ipow__", "__ilshift__", "__irshift__", "__iand__", "__ixor__", "__ior__"] :=
+  ⟨rfl, rfl, rfl⟩
+
+/-- **Unbound is reported on every forwarded operation.** Where `_get_current_object()` raises
+RuntimeError, each of the 93 forwarded names either raises that RuntimeError or - for the six names
+with a declared fallback only - yields the fallback; in particular `bool(proxy)` is `False` and
+`repr(proxy)` is the fallback repr. -/
+theorem proxy_ops_unbound_report :
+    (∀ e ∈ Gen.LocalProxyTbl.table, e.hasFallback = false → lookupGet e .unbound = .runtimeError) ∧
+    ((Gen.LocalProxyTbl.table.filter (·.hasFallback)).map fun e => (e.name, lookupGet e .unbound)) =
+      [("__doc__", .fallback "<the class docstring>"), ("__wrapped__", .fallback "<the wrapped local>"),
+       ("__repr__", .fallback "'<LocalProxy unbound>'"), ("__bool__", .fallback "False"),
+       ("__dir__", .fallback "[]"), ("__class__", .fallback "LocalProxy")] := by
+  refine ⟨?_, rfl⟩
+  intro e _ h
+  simp [lookupGet, h]
+
+/-- **Bound: every forwarded operation acts on the object bound in the accessing context.** For every
+way of constructing the proxy and every table entry: if `_get_current_object()` in context `c` yields
+`x`, the operation is re-done on `x`; the result is the operation's result, except for the in-place
+operators, where the proxy itself is returned (`p += v` mutates the bound object and leaves `p` a
+proxy; it never re-binds `p` to the object of one context). An AttributeError of `get_name`
+propagates unchanged. -/
+theorem proxy_ops_forward (attrOf : Nat → Option Nat) (falsy : Nat → Bool) (lw : LWorld) (c : Nat)
+    (p : PSrc) (e : LookupEntry) :
+    lookupGet e (resolveP attrOf falsy lw c p) =
+      match resolveP attrOf falsy lw c p with
+      | .obj x => if e.iop then .forwardKeepProxy x else .forward x
+      | .attrError => .attrError
+      | .unbound => if e.hasFallback then .fallback e.fallback else .runtimeError := by
+  cases resolveP attrOf falsy lw c p <;> rfl
+
+/-- **Every proxy source resolves in the accessing context.** For each of the ways a `LocalProxy` can
+be constructed - `Local` + name, `LocalStack` with or without name, bare `ContextVar` with or without
+name, a callable (returning an object, or asking another proxy) with or without name -
+`_get_current_object()` evaluated in context `c` is unchanged by EVERY history of events that do
+not execute in `c`: calls and `ContextVar.set` in other contexts, creations, disposals, collections,
+context copies. -/
+theorem proxy_source_resolves_in_accessing_context (attrOf : Nat → Option Nat) (falsy : Nat → Bool)
+    (es0 es : List LEvent) (hc0 : ∀ e ∈ es0, e.cbw) (ho0 : ∀ e ∈ es0, e.ownVar)
+    (hc : ∀ e ∈ es, e.cbw) (ho : ∀ e ∈ es, e.ownVar)
+    (c : Nat) (hcn : c < (lrun LWorld.init es0).w.nctx) (hne : ∀ e ∈ es, ¬ e.inCtx c) (p : PSrc) :
+    resolveP attrOf falsy (lrun (lrun LWorld.init es0) es) c p
+      = resolveP attrOf falsy (lrun LWorld.init es0) c p := by
+  obtain ⟨h1, h2⟩ := lrun_other_ctx (lrun_inv linv_init es0 hc0 ho0).1 es hc ho c hcn hne
+  exact resolveP_congr attrOf falsy h1 h2 p
+
+/-- non-vacuity: the parent binds a `ContextVar` and pushes on a stack, a child is copied and re-binds
+both; proxies of all kinds, evaluated in the parent, still yield the parent's objects -/
+example :
+    let es0 : List LEvent := [.create .ownFresh 0 true, .cvSet 0 0 8, .call 0 0 stackPush ⟨0, 16⟩, .copyCtx 0]
+    let es : List LEvent := [.cvSet 1 0 9, .call 1 0 stackPush ⟨0, 24⟩]
+    let lw := lrun (lrun LWorld.init es0) es
+    let attrOf : Nat → Option Nat := fun x => some (x + 64)
+    resolveP attrOf (fun _ => false) lw 0 (.cvar 0 false) = .obj 8 ∧
+    resolveP attrOf (fun _ => false) lw 1 (.cvar 0 false) = .obj 9 ∧
+    resolveP attrOf (fun _ => false) lw 0 (.stackTop 0 true) = .obj 80 ∧
+    resolveP attrOf (fun _ => false) lw 1 (.via (.stackTop 0 false) false) = .obj 24 ∧
+    (∀ e ∈ es, ¬ e.inCtx 0) := by
+  refine ⟨by decide, by decide, by decide, by decide, ?_⟩
+  intro e he
+  simp only [List.mem_cons, List.mem_nil_iff, or_false] at he
+  rcases he with rfl | rfl <;> simp [LEvent.inCtx]
+
+/-- **When is a proxy unbound?** Exactly where nothing is bound in the accessing context: the name is
+missing from the context's mapping (`Local`), the context's stack is empty or was never pushed to
+(`LocalStack` - a falsy top object is bound, see `proxy_bound_even_if_falsy`), the `ContextVar` has
+no value there, the inner proxy is unbound (callable asking a proxy); a callable returning an object
+is never unbound. -/
+theorem proxy_source_unbound_iff (attrOf : Nat → Option Nat) (falsy : Nat → Bool) (lw : LWorld) (c : Nat) :
+    (∀ v name, resolveP attrOf falsy lw c (.localAttr v name) = .unbound ↔ resolve lw.w c (.attr v name) = none) ∧
+    (∀ v attr, resolveP attrOf falsy lw c (.stackTop v attr) = .unbound ↔ resolve lw.w c (.top v) = none) ∧
+    (∀ j attr, resolveP attrOf falsy lw c (.cvar j attr) = .unbound ↔ lw.cv c j = none) ∧
+    (∀ x attr, resolveP attrOf falsy lw c (.const x attr) ≠ .unbound) ∧
+    (∀ inner attr, resolveP attrOf falsy lw c (.via inner attr) = .unbound ↔
+      resolveP attrOf falsy lw c inner = .unbound) := by
+  have hgn : ∀ attr x, getName attrOf attr x ≠ .unbound := by
+    intro attr x
+    unfold getName
+    cases attr <;> simp
+    cases attrOf x <;> simp
+  have hsrc : ∀ p, resolveSrc falsy lw.w c p = resolve lw.w c p :=
+    fun p => (proxy_bound_even_if_falsy.2 falsy lw.w c p).1
+  refine ⟨?_, ?_, ?_, ?_, ?_⟩
+  · intro v name
+    simp only [resolveP, hsrc]
+    cases resolve lw.w c (.attr v name) <;> simp
+  · intro v attr
+    simp only [resolveP, hsrc]
+    cases h : resolve lw.w c (.top v) with
+    | none => simp
+    | some x => simpa using hgn attr x
+  · intro j attr
+    simp only [resolveP]
+    cases h : lw.cv c j with
+    | none => simp
+    | some x => simpa using hgn attr x
+  · intro x attr
+    exact hgn attr x
+  · intro inner attr
+    simp only [resolveP]
+    cases h : resolveP attrOf falsy lw c inner with
+    | obj x => simpa using hgn attr x
+    | unbound => simp
+    | attrError => simp
 
 /-- a bound falsy object on the stack (token 2, declared falsy) is still what the proxy yields -/
 example : proxyViewSrc (fun x => x == 2) (run World.init [.call 0 1 stackPush ⟨0, 2⟩]) 0 (.top 1)
